@@ -280,9 +280,16 @@ def main(chk):
     lap("events_edges")
     # ------------------------------------------------------------------ 3. deep walks sampled by TLC's simulator
     swalks, ssteps, sim_edges, sim_sample = [], 0, 0, None
-    for si, sc in enumerate((base, diamond)):
+
+    def _sim(arg):
+        si, sc = arg
         sim_cfg = _events_cfg(dict(sc, MaxDepth=sim_depth + 1), "StylesFull", invs=["SimEmit"])
-        sg, sw = ED.simulate_walks("Events", sim_cfg, chk.work + "/sim%d" % si, sim_num // 2, sim_depth, chk.seed + 1 + si, timeout=1500)
+        return ED.simulate_walks("Events", sim_cfg, chk.work + "/sim%d" % si, sim_num // 2, sim_depth, chk.seed + 1 + si, timeout=1500)
+
+    from concurrent.futures import ThreadPoolExecutor
+    with ThreadPoolExecutor(2) as ex:           # the simulator is one single-threaded TLC per hierarchy shape: run both at once
+        sims = list(ex.map(_sim, enumerate((base, diamond))))
+    for si, (sg, sw) in enumerate(sims):
         if len(sw) < sim_num // 4:
             chk.machinery("simulator produced only %d walks" % len(sw))
         st_, smism = graph.replay(sg, sw, lambda wid, w: ED.Driver(wid, w), chk.work + "/simreplay%d" % si, nproc=nproc)
